@@ -216,10 +216,14 @@ Definition cache_ok (kd : kind) (w : world) (kc : keycache) : Prop :=
 
 Definition kd_of (b : bool) : kind := if b then KSk else KIk.
 
+Definition cap_ok (pol : cachepol) : Prop := match cp_kind pol with None => True | Some _ => 1 <= cp_cap pol end.
+Definition pol_ok (p : policy) : Prop := cap_ok (p_sk_pol p) /\ cap_ok (p_ik_pol p).
+
 Definition fact_ok (kinds : list bool) (fa : factory) : Prop :=
   fa_svc fa = svc /\ fa_prod fa = prod /\ fa_suffix fa = None /\
   (forall cid, fa_sk fa = Some cid -> nth_error kinds cid = Some true) /\
-  (forall cid, fa_ik fa = Some cid -> nth_error kinds cid = Some false).
+  (forall cid, fa_ik fa = Some cid -> nth_error kinds cid = Some false) /\
+  pol_ok (fa_policy fa).
 
 Definition sess_ok (kinds : list bool) (w : world) (x : session) : Prop :=
   (exists fa, nth_error (w_factories w) (ss_factory x) = Some fa) /\
@@ -1362,6 +1366,712 @@ Proof.
   - intro k. exact (hoare_q0 (cck_close sk) (fun w => Iv kinds w /\ handed KIk meta w k) _ (q0_cck_close sk)
                       (stable0_and _ _ (stable0_Iv kinds) (stable0_of_S _ (stableS_handed KIk meta k))) (fun w H => H)).
   - exact (hoare_q0 (cck_close sk) (Iv kinds) _ (q0_cck_close sk) (stable0_Iv kinds) (fun w H => H)).
+Qed.
+
+(* ---- Encrypt returns durable, decryptable records --------------------------------------------------- *)
+
+(* a data row record for partition id [pid] carrying payload [p]: it names an intermediate key row that is in the
+   metastore together with its system key row, its data key is sealed under that intermediate key's material, and
+   the payload under that data key.  Nothing but the metastore contents and the KMS is needed to open it. *)
+Definition genuine (st : list row) (pid : str) (d : drr) (p : ptxt) : Prop :=
+  exists k c ikm n dkm n',
+    d_key d = Some k /\ e_parent k = Some {| km_id := IKid pid; km_created := c |} /\
+    ik_row st (IKid pid) c ikm /\ e_key k = CAead ikm n (PKey dkm) /\ d_data d = CAead dkm n' p.
+
+Lemma genuine_kept st st' pid d p : rows_kept st st' -> genuine st pid d p -> genuine st' pid d p.
+Proof.
+  intros K [k [c [ikm [n [dkm [n' [H1 [H2 [H3 [H4 H5]]]]]]]]]]. exists k, c, ikm, n, dkm, n'.
+  repeat split; try assumption. eapply ik_row_kept; eassumption.
+Qed.
+
+Lemma encrypt_with_ik_spec kinds e ik payload :
+  env_ok kinds e ->
+  hoare (fun w => Iv kinds w /\ bound KIk w ik (ik_id e)) (encrypt_with_ik e ik payload)
+        (fun d w => Iv kinds w /\ genuine (w_store w) (p_id (en_part e)) d payload) (Iv kinds).
+Proof.
+  intro EO. unfold encrypt_with_ik. pose proof (ik_id_env kinds e EO) as Eik. set (pid := p_id (en_part e)) in *. rewrite Eik.
+  pose (A := fun w => Iv kinds w /\ bound KIk w ik (IKid pid)).
+  assert (SA : stable0 A) by (apply stable0_and; [apply stable0_Iv | apply stable0_of_S, stableS_bound]).
+  assert (EA : forall w, A w -> Iv kinds w) by (intros w H; exact (proj1 H)).
+  eapply (hoare_bind _ _ (fun (_ : Z) w => A w)); [exact (hoare_q0 get_now A _ q0_get_now SA EA)|].
+  intro now.
+  eapply (hoare_bind _ _ (fun drk w => A w /\ exists dm, mat_of w drk (PKey dm))).
+  { eapply hoare_post; [exact (hoare_q0r (generate_key _) A _ _ (q0_generate_key _) SA (generate_key_res _) EA)|].
+    intros k w [HA [_ Hm]]. split; assumption. }
+  intro drk.
+  apply hoare_pre with (P' := fun w => exists dm, A w /\ mat_of w drk (PKey dm)); [|intros w [HA [dm Hm]]; exists dm; tauto].
+  apply hoare_ex. intro dm.
+  eapply hoare_finally with (Q1 := fun d w => Iv kinds w /\ genuine (w_store w) pid d payload) (E1 := Iv kinds).
+  2:{ intro d. exact (hoare_q0 (ck_close drk) (fun w => Iv kinds w /\ genuine (w_store w) pid d payload) _ (q0_ck_close drk)
+                        (stable0_and _ _ (stable0_Iv kinds) (stable0_store (fun st => genuine st pid d payload))) (fun w H => H)). }
+  2:{ exact (hoare_q0 (ck_close drk) (Iv kinds) _ (q0_ck_close drk) (stable0_Iv kinds) (fun w H => H)). }
+  pose (B := fun w => A w /\ mat_of w drk (PKey dm)).
+  assert (SB : stable0 B) by (apply stable0_and; [exact SA | apply stable0_of_S, stableS_mat_of]).
+  assert (EB : forall w, B w -> Iv kinds w) by (intros w H; exact (EA w (proj1 H))).
+  eapply (hoare_bind _ _ (fun drkb w => B w /\ mat_of w drk drkb)).
+  { exact (hoare_q0r (key_bytes drk) B _ _ (q0_key_bytes drk) SB (key_bytes_res drk) EB). }
+  intro drkb.
+  apply (hoare_pull _ (drkb = PKey dm)); [intros w [[_ H1] H2]; exact (mat_of_fun _ _ _ _ H2 H1)|]. intros ->.
+  apply hoare_pre with (P' := B); [|intros w H; exact (proj1 H)].
+  eapply (hoare_bind _ _ (fun enc_data w => B w /\ exists k n, PKey dm = PKey k /\ enc_data = CAead k n payload)).
+  { exact (hoare_q0r (aead_encrypt payload (PKey dm)) B _ _ (q0_aead_encrypt _ _) SB (aead_encrypt_res _ _) EB). }
+  intro enc_data.
+  apply hoare_pre with (P' := fun w => (exists k n, PKey dm = PKey k /\ enc_data = CAead k n payload) /\ B w); [|intros w H; tauto].
+  apply hoare_pure. intros [k0 [n' [Ek ->]]]. inversion Ek; subst k0.
+  eapply (hoare_bind _ _ (fun ikb w => B w /\ mat_of w ik ikb)).
+  { exact (hoare_q0r (key_bytes ik) B _ _ (q0_key_bytes ik) SB (key_bytes_res ik) EB). }
+  intro ikb.
+  pose (B1 := fun w => B w /\ mat_of w ik ikb).
+  assert (SB1 : stable0 B1) by (apply stable0_and; [exact SB | apply stable0_of_S, stableS_mat_of]).
+  assert (EB1 : forall w, B1 w -> Iv kinds w) by (intros w H; exact (EB w (proj1 H))).
+  eapply (hoare_bind _ _ (fun drkb2 w => B1 w /\ mat_of w drk drkb2)).
+  { exact (hoare_q0r (key_bytes drk) B1 _ _ (q0_key_bytes drk) SB1 (key_bytes_res drk) EB1). }
+  intro drkb2.
+  apply (hoare_pull _ (drkb2 = PKey dm)); [intros w [[[_ H1] _] H2]; exact (mat_of_fun _ _ _ _ H2 H1)|]. intros ->.
+  apply hoare_pre with (P' := B1); [|intros w H; exact (proj1 H)].
+  eapply (hoare_bind _ _ (fun enc_key w => B1 w /\ exists k n, ikb = PKey k /\ enc_key = CAead k n (PKey dm))).
+  { exact (hoare_q0r (aead_encrypt (PKey dm) ikb) B1 _ _ (q0_aead_encrypt _ _) SB1 (aead_encrypt_res _ _) EB1). }
+  intro enc_key.
+  apply hoare_pre with (P' := fun w => (exists k n, ikb = PKey k /\ enc_key = CAead k n (PKey dm)) /\ B1 w); [|intros w H; tauto].
+  apply hoare_pure. intros [ikm [n [-> ->]]].
+  eapply (hoare_bind _ _ (fun (_ : kobj) w => B1 w)); [exact (hoare_q0 _ B1 _ (q0_kobj_get drk) SB1 EB1)|].
+  intro drko.
+  eapply (hoare_bind _ _ (fun iko w => B1 w /\ created_of w ik (ko_created iko))).
+  { eapply hoare_post; [exact (hoare_q0r (kobj_get ik) B1 _ _ (q0_kobj_get ik) SB1 (kobj_get_res ik) EB1)|].
+    intros o w [H1 H2]. split; [exact H1|]. exists o. split; [exact H2 | reflexivity]. }
+  intro iko.
+  apply hoare_ret. intros w [[[[HI Hb] _] Hmi] Hci]. split; [exact HI|].
+  destruct Hb as [_ [c [m' [H1 [H2 H3]]]]]. cbn [row_ok] in H3.
+  pose proof (created_of_fun _ _ _ _ H1 Hci) as Ec. pose proof (mat_of_fun _ _ _ _ H2 Hmi) as Em. inversion Em; subst.
+  eexists _, (ko_created iko), ikm, n, dm, n'. cbn [d_key d_data e_parent e_key]. repeat split. exact H3.
+Qed.
+
+Lemma encrypt_payload_spec kinds e payload :
+  env_ok kinds e ->
+  hoare (Iv kinds) (encrypt_payload e payload)
+        (fun d w => Iv kinds w /\ genuine (w_store w) (p_id (en_part e)) d payload) (Iv kinds).
+Proof.
+  intro EO. unfold encrypt_payload. pose proof EO as [_ [_ [_ [_ Hik]]]].
+  eapply (hoare_bind _ _ (fun ik w => Iv kinds w /\ bound KIk w ik (ik_id e))).
+  { assert (Oi : okid (kd_of false) (ik_id e)) by (rewrite (ik_id_env kinds e EO); eexists; reflexivity).
+    exact (get_or_load_latest_spec kinds (en_ik e) false _ _ (ik_id e) _ Hik Oi (load_latest_or_create_intermediate_key_ok kinds e EO)). }
+  intro ik.
+  eapply hoare_finally with (Q1 := fun d w => Iv kinds w /\ genuine (w_store w) (p_id (en_part e)) d payload) (E1 := Iv kinds).
+  - exact (encrypt_with_ik_spec kinds e ik payload EO).
+  - intro d. exact (hoare_q0 (cck_close ik) (fun w => Iv kinds w /\ genuine (w_store w) (p_id (en_part e)) d payload) _ (q0_cck_close ik)
+                      (stable0_and _ _ (stable0_Iv kinds) (stable0_store (fun st => genuine st (p_id (en_part e)) d payload))) (fun w H => H)).
+  - exact (hoare_q0 (cck_close ik) (Iv kinds) _ (q0_cck_close ik) (stable0_Iv kinds) (fun w H => H)).
+Qed.
+
+Lemma default_guard e id kinds : env_ok kinds e -> is_valid_ik_id (en_part e) id = true -> id = ik_id e.
+Proof.
+  intros [A [B [C _]]] H. unfold is_valid_ik_id in H. unfold ik_id, intermediate_key_id. rewrite C in *.
+  apply str_eqb_eq in H. exact H.
+Qed.
+
+Lemma decrypt_data_row_record_spec kinds e r :
+  env_ok kinds e ->
+  hoare (Iv kinds) (decrypt_data_row_record e r) (fun _ w => Iv kinds w) (Iv kinds).
+Proof.
+  intro EO. unfold decrypt_data_row_record. pose proof EO as [_ [_ [_ [_ Hik]]]].
+  destruct (d_key r) as [key|]; [|apply hoare_fail; tauto].
+  destruct (e_parent key) as [pm|]; [|apply hoare_fail; tauto].
+  destruct (is_valid_ik_id (en_part e) (km_id pm)) eqn:G; cbn [negb]; [|apply hoare_fail; tauto].
+  pose proof (default_guard e (km_id pm) kinds EO G) as Eid.
+  eapply (hoare_bind _ _ (fun (_ : nat) w => Iv kinds w)).
+  { assert (Oi : okid (kd_of false) (km_id pm)) by (rewrite Eid, (ik_id_env kinds e EO); eexists; reflexivity).
+    eapply hoare_post; [exact (get_or_load_spec kinds (en_ik e) false _ pm _ Hik Oi (load_intermediate_key_ok kinds e pm EO Eid))|].
+    intros k w H. exact (proj1 H). }
+  intro ik.
+  eapply hoare_finally with (Q1 := fun (_ : ptxt) w => Iv kinds w) (E1 := Iv kinds).
+  - exact (hoare_q0 _ (Iv kinds) _ (q0_decrypt_row ik key (d_data r)) (stable0_Iv kinds) (fun w H => H)).
+  - intros _. exact (hoare_q0 (cck_close ik) (Iv kinds) _ (q0_cck_close ik) (stable0_Iv kinds) (fun w H => H)).
+  - exact (hoare_q0 (cck_close ik) (Iv kinds) _ (q0_cck_close ik) (stable0_Iv kinds) (fun w H => H)).
+Qed.
+
+(* ---- session.go / session_cache.go -------------------------------------------------------------------- *)
+
+Lemma same_keys_sessions w x : same_keys w (with_sessions x w).
+Proof. repeat split. Qed.
+Lemma same_keys_factories w x : same_keys w (with_factories x w).
+Proof. repeat split. Qed.
+
+Lemma sess_ok_factories kinds w fs x :
+  (forall f, nth_error (w_factories w) f <> None -> nth_error fs f <> None) ->
+  sess_ok kinds w x -> sess_ok kinds (with_factories fs w) x.
+Proof.
+  intros Hf [[fa Hfa] Rest]. split; [|exact Rest]. cbn [w_factories with_factories].
+  destruct (nth_error fs (ss_factory x)) as [fa'|] eqn:E; [exists fa'; reflexivity|].
+  exfalso. apply (Hf (ss_factory x)); [congruence | exact E].
+Qed.
+
+Lemma put_session_spec kinds s x' :
+  hoare (fun w => Iv kinds w /\ sess_ok kinds w x') (put_session s x') (fun _ w => Iv kinds w /\ sess_ok kinds w x') (Iv kinds).
+Proof.
+  intros w [[SO [L C F S]] SX]. unfold put_session, upd. cbn [fst snd]. split; [|exact SX]. split; [exact SO|]. constructor; wsimpl.
+  - exact L.
+  - intros cid kc b H1 H2. eapply cache_ok_ext; [apply same_keys_sessions | eapply C; eassumption].
+  - exact F.
+  - intros s0 x H. rewrite nth_error_set_nth in H. destruct (Nat.eqb s s0).
+    + destruct (nth_error (w_sessions w) s); [|discriminate]. inversion H; subst. exact SX.
+    + exact (S s0 x H).
+Qed.
+
+Lemma put_factory_spec kinds f fa' :
+  hoare (fun w => Iv kinds w /\ fact_ok kinds fa') (put_factory f fa') (fun _ w => Iv kinds w) (Iv kinds).
+Proof.
+  intros w [[SO [L C F S]] FX]. unfold put_factory, upd. cbn [fst snd]. split; [exact SO|]. constructor; wsimpl.
+  - exact L.
+  - intros cid kc b H1 H2. eapply cache_ok_ext; [apply same_keys_factories | eapply C; eassumption].
+  - intros f0 fa H. rewrite nth_error_set_nth in H. destruct (Nat.eqb f f0).
+    + destruct (nth_error (w_factories w) f); [|discriminate]. inversion H; subst. exact FX.
+    + exact (F f0 fa H).
+  - intros s0 x H. apply (sess_ok_factories kinds w (set_nth f fa' (w_factories w)) x); [|exact (S s0 x H)].
+    intros f0 Hn. rewrite nth_error_set_nth. destruct (Nat.eqb f f0) eqn:E; [|exact Hn].
+    apply Nat.eqb_eq in E. subst f0. destruct (nth_error (w_factories w) f); [discriminate | contradiction].
+Qed.
+
+Lemma stable0_session_at s x : stable0 (fun w => nth_error (w_sessions w) s = Some x).
+Proof. intros w w' [[_ [_ [_ [ES _]]]] _] H. rewrite ES. exact H. Qed.
+Lemma stable0_factory_at f x : stable0 (fun w => nth_error (w_factories w) f = Some x).
+Proof. intros w w' [[_ [_ [_ [_ [EF _]]]]] _] H. rewrite EF. exact H. Qed.
+
+Lemma get_session_spec kinds s :
+  hoare (Iv kinds) (get_session s) (fun x w => Iv kinds w /\ sess_ok kinds w x) (Iv kinds).
+Proof.
+  eapply hoare_post; [exact (hoare_q0r (get_session s) (Iv kinds) _ _ (q0_get_session s) (stable0_Iv kinds) (get_session_res s) (fun w H => H))|].
+  intros x w [HI H]. split; [exact HI|]. destruct HI as [_ [L C F S]]. exact (S s x H).
+Qed.
+
+Lemma get_factory_spec kinds f :
+  hoare (Iv kinds) (get_factory f) (fun fa w => (Iv kinds w /\ nth_error (w_factories w) f = Some fa) /\ fact_ok kinds fa) (Iv kinds).
+Proof.
+  eapply hoare_post; [exact (hoare_q0r (get_factory f) (Iv kinds) _ _ (q0_get_factory f) (stable0_Iv kinds) (get_factory_res f) (fun w H => H))|].
+  intros x w [HI H]. split; [split; assumption|]. destruct HI as [_ [L C F S]]. exact (F f x H).
+Qed.
+
+(* updating a session record without touching its partition, factory and cache handle *)
+Definition sess_same (x x' : session) : Prop :=
+  ss_factory x' = ss_factory x /\ ss_part x' = ss_part x /\ ss_ik x' = ss_ik x.
+
+Lemma sess_ok_same kinds w x x' : sess_same x x' -> sess_ok kinds w x -> sess_ok kinds w x'.
+Proof. intros [E1 [E2 E3]] H. unfold sess_ok in *. rewrite E1, E2, E3. exact H. Qed.
+
+Lemma stableS_sess_ok kinds x : stable0 (fun w => sess_ok kinds w x).
+Proof. intros w w' [[_ [_ [_ [_ [EF _]]]]] _] H. unfold sess_ok in *. rewrite EF. exact H. Qed.
+
+Lemma envelope_close_spec kinds s : hoare (Iv kinds) (envelope_close s) (fun _ w => Iv kinds w) (Iv kinds).
+Proof.
+  unfold envelope_close.
+  eapply (hoare_bind _ _ _); [exact (get_session_spec kinds s)|]. intro x.
+  eapply (hoare_bind _ _ (fun (_ : unit) w => Iv kinds w /\ sess_ok kinds w x)).
+  { eapply hoare_weaken.
+    - exact (put_session_spec kinds s _).
+    - intros w [HI HS]. split; [exact HI|]. eapply sess_ok_same; [|exact HS]. repeat split.
+    - intros _ w [HI HS]. split; [exact HI|]. eapply sess_ok_same; [|exact HS]. repeat split.
+    - tauto. }
+  intros _. destruct (ss_own_ik x); [|apply hoare_ret; tauto].
+  eapply hoare_pre with (P' := fun w => (forall cid, ss_ik x = Some cid -> exists b, nth_error kinds cid = Some b) /\ Iv kinds w).
+  - apply hoare_pure. intro H. exact (kc_close_spec kinds (ss_ik x) H).
+  - intros w [HI [_ [_ [_ [_ H]]]]]. split; [|exact HI]. intros cid Hc. exists false. exact (H cid Hc).
+Qed.
+
+Lemma put_same_session_spec kinds s x x' :
+  sess_same x x' ->
+  hoare (fun w => Iv kinds w /\ sess_ok kinds w x) (put_session s x') (fun _ w => Iv kinds w) (Iv kinds).
+Proof.
+  intro SS. eapply hoare_weaken; [exact (put_session_spec kinds s x') | | |]; cbv beta.
+  - intros w [HI HS]. split; [exact HI | eapply sess_ok_same; eassumption].
+  - tauto.
+  - tauto.
+Qed.
+
+Lemma try_remove_spec kinds s : hoare (Iv kinds) (try_remove s) (fun _ w => Iv kinds w) (Iv kinds).
+Proof.
+  unfold try_remove. eapply (hoare_bind _ _ _); [exact (get_session_spec kinds s)|]. intro x.
+  destruct (ss_evicted x && negb (ss_torn x) && (ss_usage x <=? 0)).
+  - eapply hoare_pre; [exact (envelope_close_spec kinds s) | tauto].
+  - apply hoare_ret. tauto.
+Qed.
+
+Lemma mark_evicted_spec kinds s : hoare (Iv kinds) (mark_evicted s) (fun _ w => Iv kinds w) (Iv kinds).
+Proof.
+  unfold mark_evicted. eapply (hoare_bind _ _ _); [exact (get_session_spec kinds s)|]. intro x.
+  eapply (hoare_bind _ _ (fun (_ : unit) w => Iv kinds w)).
+  - apply (put_same_session_spec kinds s x). repeat split.
+  - intros _. exact (try_remove_spec kinds s).
+Qed.
+
+Lemma evictions_spec kinds l : hoare (Iv kinds) (evictions l) (fun _ w => Iv kinds w) (Iv kinds).
+Proof.
+  unfold evictions. induction l as [|kv l IH]; cbn [fold_right]; [apply hoare_ret; tauto|].
+  eapply (hoare_bind _ _ (fun (_ : unit) w => Iv kinds w)); [exact (mark_evicted_spec kinds (snd kv))|]. intros _. exact IH.
+Qed.
+
+Lemma add_usage_spec kinds s d : hoare (Iv kinds) (add_usage s d) (fun _ w => Iv kinds w) (Iv kinds).
+Proof.
+  unfold add_usage. eapply (hoare_bind _ _ _); [exact (get_session_spec kinds s)|]. intro x.
+  apply (put_same_session_spec kinds s x). repeat split.
+Qed.
+
+Lemma set_scache_spec kinds f c : hoare (Iv kinds) (set_scache f c) (fun _ w => Iv kinds w) (Iv kinds).
+Proof.
+  unfold set_scache. eapply (hoare_bind _ _ _); [exact (get_factory_spec kinds f)|]. intro fa.
+  eapply hoare_pre; [exact (put_factory_spec kinds f _)|].
+  intros w [[HI _] FO]. split; [exact HI|]. exact FO.
+Qed.
+
+Lemma session_close_spec kinds s : hoare (Iv kinds) (session_close s) (fun _ w => Iv kinds w) (Iv kinds).
+Proof.
+  unfold session_close. eapply (hoare_bind _ _ _); [exact (get_session_spec kinds s)|]. intro x.
+  destruct (ss_cached x).
+  - eapply (hoare_bind _ _ (fun (_ : unit) w => Iv kinds w)).
+    + eapply hoare_pre; [exact (add_usage_spec kinds s (-1)) | tauto].
+    + intros _. exact (try_remove_spec kinds s).
+  - eapply hoare_pre; [exact (envelope_close_spec kinds s) | tauto].
+Qed.
+
+Lemma factory_close_spec kinds f : hoare (Iv kinds) (factory_close f) (fun _ w => Iv kinds w) (Iv kinds).
+Proof.
+  unfold factory_close. eapply (hoare_bind _ _ _); [exact (get_factory_spec kinds f)|]. intro fa.
+  apply hoare_pre with (P' := fun w => fact_ok kinds fa /\ Iv kinds w); [|intros w [[HI _] FO]; tauto].
+  apply hoare_pure. intros [_ [_ [_ [Hsk [Hik _]]]]].
+  eapply (hoare_bind _ _ (fun (_ : unit) w => Iv kinds w)).
+  { destruct (fa_scache fa) as [c|]; [|apply hoare_ret; tauto].
+    eapply (hoare_bind _ _ (fun (_ : Z) w => Iv kinds w)); [exact (hoare_q0 get_now (Iv kinds) _ q0_get_now (stable0_Iv kinds) (fun w H => H))|].
+    intro now. destruct (Generic.step str_eqb c now [] OClose) as [[c' r] ev].
+    eapply (hoare_bind _ _ (fun (_ : unit) w => Iv kinds w)); [exact (set_scache_spec kinds f c')|]. intros _. exact (evictions_spec kinds ev). }
+  intros _.
+  eapply (hoare_bind _ _ (fun (_ : unit) w => Iv kinds w)).
+  { destruct (use_shared_ik (fa_policy fa)); [|apply hoare_ret; tauto].
+    apply kc_close_spec. intros cid H. exists false. exact (Hik cid H). }
+  intros _. apply kc_close_spec. intros cid H. exists true. exact (Hsk cid H).
+Qed.
+
+(* ---- allocation of caches, factories and sessions: the ghost kind map grows --------------------------- *)
+
+Definition HIv (w : world) : Prop := exists kinds, Iv kinds w.
+
+
+Lemma nth_error_app_keep {A} (l l' : list A) n x : nth_error l n = Some x -> nth_error (l ++ l') n = Some x.
+Proof. apply nth_error_app_l. Qed.
+
+Lemma fact_ok_app kinds b fa : fact_ok kinds fa -> fact_ok (kinds ++ [b]) fa.
+Proof.
+  intros [A [B [C [D [E P]]]]]. split; [exact A|]. split; [exact B|]. split; [exact C|]. split; [|split; [|exact P]].
+  - intros cid H. apply nth_error_app_keep. exact (D cid H).
+  - intros cid H. apply nth_error_app_keep. exact (E cid H).
+Qed.
+
+Lemma sess_ok_app kinds b w x : sess_ok kinds w x -> sess_ok (kinds ++ [b]) w x.
+Proof.
+  intros [A [B [C [D E]]]]. repeat split; try assumption. intros cid H. apply nth_error_app_keep. exact (E cid H).
+Qed.
+
+Lemma new_cache_ok kd w pol : cap_ok pol -> cache_ok kd w {| kc_backing := new_backing pol; kc_latest := [] |}.
+Proof.
+  intro CO. unfold new_backing, cap_ok in *. split; [|split].
+  - cbn [kc_backing]. destruct (cp_kind pol) as [k|]; cbn [b_good].
+    + split; [apply Inv_new|]. split; [intro H; discriminate H|]. cbn. split; [exact CO | reflexivity].
+    + constructor.
+  - cbn [kc_backing]. intros ks e H. destruct (cp_kind pol); cbn in H; discriminate H.
+  - cbn [kc_latest]. intros i l H. discriminate H.
+Qed.
+
+Lemma Iv_add_cache kinds w pol b :
+  cap_ok pol -> Iv kinds w ->
+  Iv (kinds ++ [b]) (with_caches (w_caches w ++ [{| kc_backing := new_backing pol; kc_latest := [] |}]) w) /\
+  nth_error (kinds ++ [b]) (length (w_caches w)) = Some b.
+Proof.
+  intros CO [SO [L C F S]]. split.
+  - split; [exact SO|]. constructor; wsimpl.
+    + rewrite !app_length, L. reflexivity.
+    + intros cid kc b0 H1 H2. destruct (lt_dec cid (length (w_caches w))) as [Lt|Ge].
+      * rewrite nth_error_app1 in H1 by exact Lt. rewrite nth_error_app1 in H2 by (rewrite L; exact Lt).
+        eapply cache_ok_ext; [apply same_keys_caches | eapply C; eassumption].
+      * assert (cid = length (w_caches w)).
+        { assert (cid < length (w_caches w ++ [{| kc_backing := new_backing pol; kc_latest := [] |}]))%nat by (apply nth_error_Some; congruence).
+          rewrite app_length in H. cbn in H. lia. }
+        subst cid. rewrite nth_error_app2 in H1 by lia. rewrite Nat.sub_diag in H1. inversion H1; subst kc.
+        rewrite nth_error_app2 in H2 by lia. rewrite L, Nat.sub_diag in H2. inversion H2; subst b0.
+        apply new_cache_ok. exact CO.
+    + intros f fa H. apply fact_ok_app. exact (F f fa H).
+    + intros s0 x H. apply sess_ok_app. destruct (S s0 x H) as [Hf Rest]. split; [exact Hf | exact Rest].
+  - rewrite <- L. rewrite nth_error_app2 by lia. rewrite Nat.sub_diag. reflexivity.
+Qed.
+
+Lemma new_keycache_run pol w :
+  new_keycache pol w = (inr (length (w_caches w)), with_caches (w_caches w ++ [{| kc_backing := new_backing pol; kc_latest := [] |}]) w).
+Proof. reflexivity. Qed.
+
+Lemma cache_kind_app kinds c b b' : cache_kind kinds c b -> cache_kind (kinds ++ [b']) c b.
+Proof. intros H cid E. apply nth_error_app_keep. exact (H cid E). Qed.
+
+Lemma Iv_add_factory kinds w fa :
+  Iv kinds w -> fact_ok kinds fa -> Iv kinds (with_factories (w_factories w ++ [fa]) w).
+Proof.
+  intros [SO [L C F S]] FO. split; [exact SO|]. constructor; wsimpl.
+  - exact L.
+  - intros cid kc b H1 H2. eapply cache_ok_ext; [apply same_keys_factories | eapply C; eassumption].
+  - intros f fa0 H. destruct (lt_dec f (length (w_factories w))) as [Lt|Ge].
+    + rewrite nth_error_app1 in H by exact Lt. exact (F f fa0 H).
+    + assert (f = length (w_factories w)).
+      { assert (f < length (w_factories w ++ [fa]))%nat by (apply nth_error_Some; congruence). rewrite app_length in H0. cbn in H0. lia. }
+      subst f. rewrite nth_error_app2 in H by lia. rewrite Nat.sub_diag in H. inversion H; subst. exact FO.
+  - intros s0 x H. apply (sess_ok_factories kinds w _ x); [|exact (S s0 x H)].
+    intros f Hn. destruct (nth_error (w_factories w) f) eqn:E; [|contradiction]. rewrite (nth_error_app_keep _ _ _ _ E). discriminate.
+Qed.
+
+Lemma new_factory_spec kinds p :
+  pol_ok p -> hoare (Iv kinds) (new_factory p svc prod None) (fun _ w => HIv w) HIv.
+Proof.
+  intros [CS CI0] w HI. unfold new_factory, bind.
+  set (sc := if p_cache_sessions p then Some (new_cache {| c_kind := p_sess_kind p; c_cap := p_sess_cap p; c_expiry := if p_sess_dur p >? 0 then p_sess_dur p else 0 |}) else None).
+  destruct (p_cache_sk p).
+  - rewrite new_keycache_run. cbn [ret]. destruct (Iv_add_cache kinds w (p_sk_pol p) true CS HI) as [HI1 Hk1].
+    set (w1 := with_caches (w_caches w ++ [{| kc_backing := new_backing (p_sk_pol p); kc_latest := [] |}]) w) in *.
+    destruct (use_shared_ik p).
+    + rewrite new_keycache_run. cbn [ret]. destruct (Iv_add_cache _ w1 (p_ik_pol p) false CI0 HI1) as [HI2 Hk2].
+      set (w2 := with_caches _ w1) in *. unfold gets, upd, ret. cbn [fst snd].
+      exists ((kinds ++ [true]) ++ [false]). apply Iv_add_factory; [exact HI2|].
+      repeat split; cbn [fa_svc fa_prod fa_suffix fa_sk fa_ik fa_policy]; try exact CS; try exact CI0.
+      * intros cid E. inversion E; subst. apply nth_error_app_keep. exact Hk1.
+      * intros cid E. inversion E; subst. exact Hk2.
+    + unfold gets, upd, ret. cbn [fst snd]. exists (kinds ++ [true]). apply Iv_add_factory; [exact HI1|].
+      repeat split; cbn [fa_svc fa_prod fa_suffix fa_sk fa_ik fa_policy]; try exact CS; try exact CI0.
+      * intros cid E. inversion E; subst. exact Hk1.
+      * intros cid E. discriminate E.
+  - cbn [ret]. destruct (use_shared_ik p).
+    + rewrite new_keycache_run. cbn [ret]. destruct (Iv_add_cache _ w (p_ik_pol p) false CI0 HI) as [HI2 Hk2].
+      unfold gets, upd, ret. cbn [fst snd]. exists (kinds ++ [false]). apply Iv_add_factory; [exact HI2|].
+      repeat split; cbn [fa_svc fa_prod fa_suffix fa_sk fa_ik fa_policy]; try exact CS; try exact CI0.
+      * intros cid E. discriminate E.
+      * intros cid E. inversion E; subst. exact Hk2.
+    + unfold gets, upd, ret. cbn [fst snd]. exists kinds. apply Iv_add_factory; [exact HI|].
+      repeat split; cbn [fa_svc fa_prod fa_suffix fa_sk fa_ik fa_policy]; try exact CS; try exact CI0; intros cid E; discriminate E.
+Qed.
+
+Lemma Iv_add_session kinds w x :
+  Iv kinds w -> sess_ok kinds w x -> Iv kinds (with_sessions (w_sessions w ++ [x]) w).
+Proof.
+  intros [SO [L C F S]] SX. split; [exact SO|]. constructor; wsimpl.
+  - exact L.
+  - intros cid kc b H1 H2. eapply cache_ok_ext; [apply same_keys_sessions | eapply C; eassumption].
+  - exact F.
+  - intros s0 x0 H. destruct (lt_dec s0 (length (w_sessions w))) as [Lt|Ge].
+    + rewrite nth_error_app1 in H by exact Lt. exact (S s0 x0 H).
+    + assert (s0 = length (w_sessions w)).
+      { assert (s0 < length (w_sessions w ++ [x]))%nat by (apply nth_error_Some; congruence). rewrite app_length in H0. cbn in H0. lia. }
+      subst s0. rewrite nth_error_app2 in H by lia. rewrite Nat.sub_diag in H. inversion H; subst. exact SX.
+Qed.
+
+Lemma new_session_spec kinds f id cached :
+  hoare (Iv kinds) (new_session f id cached) (fun _ w => HIv w) HIv.
+Proof.
+  intros w HI. unfold new_session, get_factory, bind, gets, fail, ret, upd. cbv beta iota.
+  destruct (nth_error (w_factories w) f) as [fa|] eqn:Ef; cbv beta iota; [|exists kinds; exact HI].
+  pose proof HI as [_ [L C F S]]. pose proof (F f fa Ef) as [Fs [Fp [Fx [Fsk [Fik [_ Pik]]]]]].
+  assert (Part : forall ik, (forall cid, ik = Some cid -> nth_error kinds cid = Some false) ->
+                 forall own, sess_ok kinds w {| ss_factory := f; ss_part := new_partition id (fa_svc fa) (fa_prod fa) (fa_suffix fa);
+                                                ss_ik := ik; ss_own_ik := own; ss_cached := cached; ss_usage := 0; ss_evicted := false; ss_torn := false |}).
+  { intros ik Hik own. split; [exists fa; exact Ef|]. cbn [ss_part ss_ik]. rewrite Fx. cbn [new_partition p_svc p_prod p_suffix].
+    repeat split; assumption. }
+  destruct (use_shared_ik (fa_policy fa)).
+  - unfold ret, upd. cbn [fst snd]. exists kinds. apply Iv_add_session; [exact HI|]. apply Part. exact Fik.
+  - destruct (p_cache_ik (fa_policy fa)).
+    + rewrite new_keycache_run. cbn [ret fst snd]. destruct (Iv_add_cache kinds w (p_ik_pol (fa_policy fa)) false Pik HI) as [HI1 Hk1].
+      unfold ret, upd. cbn [fst snd]. exists (kinds ++ [false]). apply Iv_add_session; [exact HI1|].
+      split; [exists fa; exact Ef|]. cbn [ss_part ss_ik]. rewrite Fx. cbn [new_partition p_svc p_prod p_suffix].
+      repeat split; try assumption. intros cid E. inversion E; subst. exact Hk1.
+    + unfold ret, upd. cbn [fst snd]. exists kinds. apply Iv_add_session; [exact HI|]. apply Part. intros cid E. discriminate E.
+Qed.
+
+Lemma session_env_spec kinds s :
+  hoare (Iv kinds) (session_env s) (fun e w => Iv kinds w /\ env_ok kinds e) (Iv kinds).
+Proof.
+  unfold session_env. eapply (hoare_bind _ _ _); [exact (get_session_spec kinds s)|]. intro x.
+  eapply (hoare_bind _ _ (fun fa w => (Iv kinds w /\ sess_ok kinds w x) /\ fact_ok kinds fa)).
+  { eapply hoare_weaken.
+    - exact (hoare_conj _ _ _ _ _ _ _ (get_factory_spec kinds (ss_factory x))
+               (hoare_quiet0 _ (fun w => sess_ok kinds w x) (q0_get_factory _) (stableS_sess_ok kinds x))).
+    - cbv beta. tauto.
+    - cbv beta. intros fa w [[[HI _] FO] SX]. tauto.
+    - cbv beta. tauto. }
+  intro fa. apply hoare_ret. intros w [[HI [_ [A [B [C D]]]]] [_ [_ [_ [Fsk _]]]]]. split; [exact HI|].
+  unfold env_ok. cbn [en_part en_sk en_ik]. repeat split; assumption.
+Qed.
+
+(* from one ghost kind map to "some kind map" *)
+Lemma lift_HIv {A} (m : M A) : (forall kinds, hoare (Iv kinds) m (fun _ w => Iv kinds w) (Iv kinds)) -> hoare HIv m (fun _ w => HIv w) HIv.
+Proof.
+  intros H. apply hoare_ex. intro kinds. eapply hoare_weaken; [exact (H kinds) | tauto | |]; intros; exists kinds; assumption.
+Qed.
+
+Lemma lift_HIv' {A} (m : M A) : (forall kinds, hoare (Iv kinds) m (fun _ w => HIv w) HIv) -> hoare HIv m (fun _ w => HIv w) HIv.
+Proof. intros H. apply hoare_ex. intro kinds. exact (H kinds). Qed.
+
+Lemma factory_get_session_spec f id : hoare HIv (factory_get_session f id) (fun _ w => HIv w) HIv.
+Proof.
+  unfold factory_get_session. destruct (negb (get_session_ok id)); [apply hoare_ret; tauto|].
+  eapply (hoare_bind _ _ (fun (_ : factory) w => HIv w)).
+  { apply lift_HIv. intro kinds. exact (hoare_q0 _ (Iv kinds) _ (q0_get_factory f) (stable0_Iv kinds) (fun w H => H)). }
+  intro fa. destruct (fa_scache fa) as [c|].
+  - eapply (hoare_bind _ _ (fun (_ : Z) w => HIv w)).
+    { apply lift_HIv. intro kinds. exact (hoare_q0 get_now (Iv kinds) _ q0_get_now (stable0_Iv kinds) (fun w H => H)). }
+    intro now.
+    assert (Tail : forall s, hoare HIv (add_usage s 1;;; ret (Some s)) (fun _ w => HIv w) HIv).
+    { intro s. eapply (hoare_bind _ _ (fun (_ : unit) w => HIv w)); [apply lift_HIv; intro kinds; exact (add_usage_spec kinds s 1)|].
+      intros _. apply hoare_ret. tauto. }
+    assert (SE : forall c1 ev1 (k : M (option nat)), hoare HIv k (fun _ w => HIv w) HIv ->
+                 hoare HIv (set_scache f c1;;; evictions ev1;;; k) (fun _ w => HIv w) HIv).
+    { intros c1 ev1 k Hk.
+      eapply (hoare_bind _ _ (fun (_ : unit) w => HIv w)); [apply lift_HIv; intro kinds; exact (set_scache_spec kinds f c1)|]. intros _.
+      eapply (hoare_bind _ _ (fun (_ : unit) w => HIv w)); [apply lift_HIv; intro kinds; exact (evictions_spec kinds ev1)|]. intros _. exact Hk. }
+    assert (Miss : forall c1 ev1, hoare HIv (set_scache f c1;;; evictions ev1;;;
+                      s <- new_session f id true;; fa' <- get_factory f;;
+                      match fa_scache fa' with
+                      | Some c2 => let '(c3, _, ev3) := Generic.step str_eqb c2 now [] (OSet id s) in
+                                   set_scache f c3;;; evictions ev3;;; add_usage s 1;;; ret (Some s)
+                      | None => fail ErrPanic end) (fun _ w => HIv w) HIv).
+    { intros c1 ev1. apply SE.
+      eapply (hoare_bind _ _ (fun (_ : nat) w => HIv w)); [apply lift_HIv'; intro kinds; exact (new_session_spec kinds f id true)|].
+      intro s.
+      eapply (hoare_bind _ _ (fun (_ : factory) w => HIv w)).
+      { apply lift_HIv. intro kinds. exact (hoare_q0 _ (Iv kinds) _ (q0_get_factory f) (stable0_Iv kinds) (fun w H => H)). }
+      intro fa'. destruct (fa_scache fa') as [c2|]; [|apply hoare_fail; tauto].
+      destruct (Generic.step str_eqb c2 now [] (OSet id s)) as [[c3 r3] ev3]. apply SE. apply Tail. }
+    destruct (Generic.step str_eqb c now [] (OGet id)) as [[c1 r] ev1].
+    destruct r as [|[s|]| | |]; try apply Miss. apply SE. apply Tail.
+  - eapply (hoare_bind _ _ (fun (_ : nat) w => HIv w)); [apply lift_HIv'; intro kinds; exact (new_session_spec kinds f id false)|].
+    intro s. apply hoare_ret. tauto.
+Qed.
+
+(* ---- histories -------------------------------------------------------------------------------------------- *)
+
+(* rows may change their Revoked flag (the operator's revocation), nothing else *)
+Definition rows_flagged (st st' : list row) : Prop :=
+  (forall i c r, store_find i c st = Some r ->
+     exists r', store_find i c st' = Some r' /\ e_created r' = e_created r /\ e_key r' = e_key r /\ e_parent r' = e_parent r) /\
+  (forall i c r', store_find i c st' = Some r' -> exists r, store_find i c st = Some r).
+
+Lemma sk_row_flagged st st' c m : rows_flagged st st' -> sk_row st c m -> sk_row st' c m.
+Proof.
+  intros [K _] [r [H1 [H2 [H3 H4]]]]. destruct (K _ _ _ H1) as [r' [A [B [C D]]]]. exists r'.
+  repeat split; congruence.
+Qed.
+
+Lemma ik_row_flagged st st' i c m : rows_flagged st st' -> ik_row st i c m -> ik_row st' i c m.
+Proof.
+  intros F [r [c' [skm [n [H1 [H2 [H3 [H4 H5]]]]]]]]. pose proof F as [K _]. destruct (K _ _ _ H1) as [r' [A [B [C D]]]].
+  exists r', c', skm, n. repeat split; try congruence. eapply sk_row_flagged; eassumption.
+Qed.
+
+Lemma store_ok_flagged st st' : rows_flagged st st' -> store_ok st -> store_ok st'.
+Proof.
+  intros F SO i c r' H. pose proof F as [_ B]. destruct (B _ _ _ H) as [r Hr].
+  destruct (SO _ _ _ Hr) as [[Ei [m Hm]]|[p [Ei [m Hm]]]].
+  - left. split; [exact Ei|]. exists m. eapply sk_row_flagged; eassumption.
+  - right. exists p. split; [exact Ei|]. exists m. eapply ik_row_flagged; eassumption.
+Qed.
+
+Lemma genuine_flagged st st' pid d p : rows_flagged st st' -> genuine st pid d p -> genuine st' pid d p.
+Proof.
+  intros F [k [c [ikm [n [dkm [n' [H1 [H2 [H3 [H4 H5]]]]]]]]]]. exists k, c, ikm, n, dkm, n'.
+  repeat split; try assumption. eapply ik_row_flagged; eassumption.
+Qed.
+
+Lemma Iv_store_flagged kinds w st' : rows_flagged (w_store w) st' -> Iv kinds w -> Iv kinds (with_store st' w).
+Proof.
+  intros Fl [SO [L C F S]]. split; [eapply store_ok_flagged; eassumption|]. constructor; wsimpl.
+  - exact L.
+  - intros cid kc b H1 H2. destruct (C cid kc b H1 H2) as [G [EN AL]]. split; [exact G|]. split; [|exact AL].
+    intros ks e H. destruct (EN ks e H) as [i [c [E1 [E2 [O [c2 [m [H3 [H4 H5]]]]]]]]]. exists i, c. split; [exact E1|].
+    split; [exact E2|]. split; [exact O|]. exists c2, m. split; [exact H3|]. split; [exact H4|]. wsimpl.
+    destruct (kd_of b); cbn [row_ok] in *; [eapply sk_row_flagged | eapply ik_row_flagged]; eassumption.
+  - exact F.
+  - intros s0 x H. destruct (S s0 x H) as [Hf Rest]. split; [exact Hf | exact Rest].
+Qed.
+
+Lemma store_find_row_edit id c i0 c0 g st :
+  store_find id c (row_edit i0 c0 g st) =
+  match store_find id c st with
+  | Some r => Some (if str_eqb id i0 && (c =? c0) then g r else r)
+  | None => None end.
+Proof.
+  induction st as [|[[i k] r] st IH]; cbn [row_edit map store_find]; [reflexivity|].
+  destruct (str_eqb i i0 && (k =? c0)) eqn:E0; cbn [store_find].
+  - destruct (str_eqb i id && (k =? c)) eqn:E1.
+    + apply andb_true_iff in E0 as [A B]. apply andb_true_iff in E1 as [C D].
+      apply str_eqb_eq in A, C. apply Z.eqb_eq in B, D. subst. rewrite str_eqb_refl, Z.eqb_refl. reflexivity.
+    + exact IH.
+  - destruct (str_eqb i id && (k =? c)) eqn:E1.
+    + apply andb_true_iff in E1 as [C D]. apply str_eqb_eq in C. apply Z.eqb_eq in D. subst. rewrite E0. reflexivity.
+    + exact IH.
+Qed.
+
+Lemma revoke_flagged st i0 c0 :
+  rows_flagged st (row_edit i0 c0 (fun r => {| e_revoked := true; e_created := e_created r; e_key := e_key r; e_parent := e_parent r |}) st).
+Proof.
+  split.
+  - intros i c r H. rewrite store_find_row_edit, H. eexists. split; [reflexivity|].
+    destruct (str_eqb i i0 && (c =? c0)); repeat split.
+  - intros i c r' H. rewrite store_find_row_edit in H. destruct (store_find i c st) as [r|]; [exists r; reflexivity | discriminate].
+Qed.
+
+Lemma Iv_ext kinds w w' :
+  w_store w' = w_store w -> w_kobjs w' = w_kobjs w -> w_secrets w' = w_secrets w -> w_caches w' = w_caches w ->
+  w_sessions w' = w_sessions w -> w_factories w' = w_factories w -> Iv kinds w -> Iv kinds w'.
+Proof.
+  intros E1 E2 E3 E4 E5 E6 [SO [L C F S]]. split; [rewrite E1; exact SO|]. constructor.
+  - rewrite E4. exact L.
+  - intros cid kc b H1 H2. rewrite E4 in H1. eapply cache_ok_ext; [|eapply C; eassumption]. repeat split; assumption.
+  - intros f fa H. rewrite E6 in H. exact (F f fa H).
+  - intros s0 x H. rewrite E5 in H. destruct (S s0 x H) as [[fa Hf] Rest]. split; [exists fa; rewrite E6; exact Hf | exact Rest].
+Qed.
+
+Definition benign (o : hop) : Prop :=
+  match o with
+  | HNewFactory p s pr suf => s = svc /\ pr = prod /\ suf = None /\ pol_ok p
+  | HInsert _ _ _ | HDropParent _ _ | HCorruptKey _ _ => False
+  | _ => True
+  end.
+
+Definition recs_ok (h : hstate) : Prop :=
+  forall j d, nth_error (h_recs h) j = Some d -> exists pid p, genuine (w_store (h_world h)) pid d p.
+
+Definition HInv (h : hstate) : Prop := HIv (h_world h) /\ recs_ok h.
+
+Lemma HIv_begin_op fs w : HIv w -> HIv (begin_op fs w).
+Proof. intros [kinds HI]. exists kinds. eapply Iv_ext; [..|exact HI]; reflexivity. Qed.
+
+Lemma recs_ok_rows h w' recs' :
+  rows_kept (w_store (h_world h)) (w_store w') -> recs_ok h ->
+  (forall j d, nth_error recs' j = Some d -> nth_error (h_recs h) j = Some d \/ exists pid p, genuine (w_store w') pid d p) ->
+  recs_ok {| h_world := w'; h_recs := recs' |}.
+Proof.
+  intros K RO Hn j d H. cbn [h_recs h_world] in *. destruct (Hn j d H) as [Ho|G]; [|exact G].
+  destruct (RO j d Ho) as [pid [p G]]. exists pid, p. eapply genuine_kept; eassumption.
+Qed.
+
+Lemma encrypt_op_spec kinds s payload :
+  hoare (Iv kinds) (e <- session_env s ;; encrypt_payload e (PPayload payload))
+        (fun d w => Iv kinds w /\ exists pid, genuine (w_store w) pid d (PPayload payload)) (Iv kinds).
+Proof.
+  eapply (hoare_bind _ _ _); [exact (session_env_spec kinds s)|]. intro e.
+  apply hoare_pre with (P' := fun w => env_ok kinds e /\ Iv kinds w); [|tauto]. apply hoare_pure. intro EO.
+  eapply hoare_post; [exact (encrypt_payload_spec kinds e (PPayload payload) EO)|].
+  intros d w [HI G]. split; [exact HI|]. exists (p_id (en_part e)). exact G.
+Qed.
+
+Lemma decrypt_op_spec kinds s r :
+  hoare (Iv kinds) (e <- session_env s ;; decrypt_data_row_record e r) (fun _ w => Iv kinds w) (Iv kinds).
+Proof.
+  eapply (hoare_bind _ _ _); [exact (session_env_spec kinds s)|]. intro e.
+  apply hoare_pre with (P' := fun w => env_ok kinds e /\ Iv kinds w); [|tauto]. apply hoare_pure. intro EO.
+  exact (decrypt_data_row_record_spec kinds e r EO).
+Qed.
+
+Theorem hstep_inv h o : benign o -> HInv h -> HInv (snd (hstep h o)).
+Proof.
+  intros B [HI RO].
+  assert (Keep : sdk_op o = true -> rows_kept (w_store (h_world h)) (w_store (h_world (snd (hstep h o))))).
+  { intro So. destruct (sdk_step_R Rs Rs_frame h o So) as [K _]. exact K. }
+  assert (Same : forall w', rows_kept (w_store (h_world h)) (w_store w') -> HIv w' -> HInv {| h_world := w'; h_recs := h_recs h |}).
+  { intros w' K H'. split; [exact H'|]. eapply recs_ok_rows; [exact K | exact RO |]. intros j d H. left. exact H. }
+  destruct o; cbn [benign] in B; try contradiction.
+  - (* new factory *)
+    destruct B as [-> [-> [-> PO]]]. pose proof (Keep eq_refl) as K. cbn [hstep] in *.
+    destruct (HIv_begin_op [] _ HI) as [kinds HI0]. pose proof (new_factory_spec kinds p PO _ HI0) as X.
+    destruct (new_factory p svc prod None (begin_op [] (h_world h))) as [[er|a] w']; cbn [snd h_world] in *; apply Same; assumption.
+  - pose proof (Keep eq_refl) as K. cbn [hstep] in *.
+    pose proof (factory_get_session_spec f id _ (HIv_begin_op [] _ HI)) as X.
+    destruct (factory_get_session f id (begin_op [] (h_world h))) as [[er|a] w']; cbn [snd h_world] in *; apply Same; assumption.
+  - (* encrypt *)
+    pose proof (Keep eq_refl) as K. cbn [hstep] in *.
+    destruct (HIv_begin_op faults _ HI) as [kinds HI0]. pose proof (encrypt_op_spec kinds s payload _ HI0) as X.
+    destruct ((e <- session_env s;; encrypt_payload e (PPayload payload)) (begin_op faults (h_world h))) as [[er|d] w']; cbn [snd h_world] in *.
+    + apply Same; [exact K | exists kinds; exact X].
+    + destruct X as [HI' [pid G]]. split; [exists kinds; exact HI'|].
+      eapply recs_ok_rows; [exact K | exact RO |]. intros j d0 H.
+      destruct (lt_dec j (length (h_recs h))) as [Lt|Ge].
+      * left. rewrite nth_error_app1 in H by exact Lt. exact H.
+      * right. assert (j = length (h_recs h)).
+        { assert (j < length (h_recs h ++ [d]))%nat by (apply nth_error_Some; congruence). rewrite app_length in H0. cbn in H0. lia. }
+        subst j. rewrite nth_error_app2 in H by lia. rewrite Nat.sub_diag in H. inversion H; subst. exists pid, (PPayload payload). exact G.
+  - (* decrypt *)
+    pose proof (Keep eq_refl) as K. cbn [hstep] in *.
+    destruct (nth_error (h_recs h) rec) as [r0|]; [|split; assumption].
+    destruct (HIv_begin_op faults _ HI) as [kinds HI0].
+    pose proof (decrypt_op_spec kinds s (fold_left (apply_mut (h_recs h)) muts r0) _ HI0) as X.
+    destruct ((e <- session_env s;; decrypt_data_row_record e (fold_left (apply_mut (h_recs h)) muts r0)) (begin_op faults (h_world h))) as [[er|a] w'];
+      cbn [snd h_world] in *; (apply Same; [exact K | exists kinds; exact X]).
+  - pose proof (Keep eq_refl) as K. cbn [hstep] in *.
+    destruct (HIv_begin_op [] _ HI) as [kinds HI0]. pose proof (session_close_spec kinds s _ HI0) as X.
+    destruct (session_close s (begin_op [] (h_world h))) as [[er|a] w']; cbn [snd h_world] in *; (apply Same; [exact K | exists kinds; exact X]).
+  - pose proof (Keep eq_refl) as K. cbn [hstep] in *.
+    destruct (HIv_begin_op [] _ HI) as [kinds HI0]. pose proof (factory_close_spec kinds f _ HI0) as X.
+    destruct (factory_close f (begin_op [] (h_world h))) as [[er|a] w']; cbn [snd h_world] in *; (apply Same; [exact K | exists kinds; exact X]).
+  - (* clock *)
+    cbn [hstep snd]. apply Same; [intros i c r H; exact H|]. destruct HI as [kinds HI]. exists kinds. eapply Iv_ext; [..|exact HI]; reflexivity.
+  - (* revocation *)
+    cbn [hstep snd]. pose proof (revoke_flagged (w_store (h_world h)) id created) as Fl. split.
+    + destruct HI as [kinds HI]. exists kinds. apply Iv_store_flagged; assumption.
+    + intros j d H. cbn [h_recs h_world] in *. destruct (RO j d H) as [pid [p G]]. exists pid, p. wsimpl. eapply genuine_flagged; eassumption.
+Qed.
+
+Lemma HInv_init t0 : HInv (hinit t0).
+Proof.
+  split.
+  - exists []. split; [intros i c r H; discriminate H|]. constructor; cbn.
+    + reflexivity.
+    + intros cid kc b H. destruct cid; discriminate H.
+    + intros f fa H. destruct f; discriminate H.
+    + intros s0 x H. destruct s0; discriminate H.
+  - intros j d H. destruct j; discriminate H.
+Qed.
+
+Lemma hrun_inv ops : forall h, Forall benign ops -> HInv h -> HInv (snd (hrun h ops)).
+Proof.
+  induction ops as [|o ops IH]; intros h FB HI; cbn [hrun]; [exact HI|].
+  inversion FB as [|? ? Bo Bops]; subst.
+  pose proof (hstep_inv h o Bo HI) as H1. destruct (hstep h o) as [[res ev] h1]. cbn [snd] in H1.
+  specialize (IH h1 Bops H1). destruct (hrun h1 ops) as [rest hf]. exact IH.
+Qed.
+
+(* C02, for every history of SDK operations, clock advances and revocations over one service/product: every record any
+   Encrypt has returned so far names an intermediate key row that is in the metastore, whose ParentKeyMeta names a system key
+   row that is in the metastore, and is sealed so that those two rows and the KMS open it - whatever faults, refused
+   inserts, evictions, rotations and restarts (new factories) happened on the way *)
+Theorem records_durable t0 ops :
+  Forall benign ops ->
+  let h := snd (hrun (hinit t0) ops) in
+  forall j d, nth_error (h_recs h) j = Some d -> exists pid p, genuine (w_store (h_world h)) pid d p.
+Proof.
+  intros FB h j d H. destruct (hrun_inv ops (hinit t0) FB (HInv_init t0)) as [_ RO]. exact (RO j d H).
+Qed.
+
+(* the metastore itself stays well formed *)
+Theorem store_well_formed t0 ops :
+  Forall benign ops -> store_ok (w_store (h_world (snd (hrun (hinit t0) ops)))).
+Proof.
+  intro FB. destruct (hrun_inv ops (hinit t0) FB (HInv_init t0)) as [[kinds [SO _]] _]. exact SO.
+Qed.
+
+(* the record returned by THIS Encrypt carries THIS payload *)
+Theorem encrypt_returns_genuine h s payload faults :
+  HInv h ->
+  match hstep h (HEncrypt s payload faults) with
+  | (OEnc _ _, _, h') =>
+      exists d pid, h_recs h' = h_recs h ++ [d] /\ genuine (w_store (h_world h')) pid d (PPayload payload)
+  | _ => True
+  end.
+Proof.
+  intros [HI _]. cbn [hstep]. destruct (HIv_begin_op faults _ HI) as [kinds HI0].
+  pose proof (encrypt_op_spec kinds s payload _ HI0) as X.
+  destruct ((e <- session_env s;; encrypt_payload e (PPayload payload)) (begin_op faults (h_world h))) as [[er|d] w'].
+  - cbn [outcome]. destruct er; exact I.
+  - cbn [outcome]. destruct X as [_ [pid G]]. destruct (d_key d) as [k|]; [|exact I]. destruct (e_parent k); [|exact I].
+    exists d, pid. split; [reflexivity | exact G].
 Qed.
 
 End Coh.
